@@ -154,4 +154,23 @@ theorem sound_nil (f : File) : Sound f [] := by
   intro k v h
   simp [Env.get] at h
 
+/-- the namespace of `pncexpr` as the source has it now (`Generated.pncexprSteps`) is: the file's variables, the helper
+functions, the constants, the file's variables again, the reserved names, the attributes that are still free. A change of
+the order of these statements in the source changes the generated list and this equation stops checking. -/
+theorem pncexprEnv_closed (f : File) (helpers consts : List String) :
+    pncexprEnv f helpers consts =
+      (((((Env.update [] (fileBinds f)).update (others "helper" helpers)).update (others "const" consts)).update
+        (fileBinds f)).update (others "module" ["ifile", "infile", "np", "datetime"])).fill (others "attr" f.attrs) := by
+  simp [pncexprEnv, Generated.pncexprSteps, nsStep, Env.update, others]
+
+theorem pncexprReserved_closed : pncexprReserved = ["ifile", "infile", "np", "datetime"] := by
+  simp [pncexprReserved, Generated.pncexprSteps, reservedOf]
+
+theorem evalEnv_closed (f : File) :
+    evalEnv f = ((Env.update [] (fileBinds f)).fill (others "attr" f.attrs)).update (others "module" ["np", "self", "outf"]) := by
+  simp [evalEnv, Generated.evalSteps, nsStep, Env.update, others]
+
+theorem evalReserved_closed : evalReserved = ["np", "self", "outf"] := by
+  simp [evalReserved, Generated.evalSteps, reservedOf]
+
 end PFile
